@@ -347,27 +347,46 @@ pub fn mon_c02(_sim: &Sim, step: &Step, st: &mut Stats) -> Result<(), String> {
                     let d1 = p1.d_scaled(0);
                     if s0 == 0 {
                         if big(s1) > &d1 + big(2) {
-                            return Err(format!("[C02] {}: first stableswap deposit minted supply {s1} > exact D {d1} + 2", step.describe()));
+                            let msg = format!("[C02] {}: first stableswap deposit minted supply {s1} > exact D {d1} + 2 (reserves {:?} decimals {:?})", step.describe(), p1.reserves, p1.decimals);
+                            let excess = big(s1) - &d1;
+                            if !ss_known(p1, p1, &excess, &d1, st, &msg) {
+                                return Err(msg);
+                            }
                         }
                         st.bump("c02: ss first deposit");
                     } else {
                         let d0 = p0.d_scaled(0);
                         // (S0+m)(D0-2) <= S0 (D1+2)
-                        let lhs = big(s1) * (if d0 > big(2) { &d0 - big(2) } else { BigUint::zero() });
-                        let rhs = big(s0) * (&d1 + big(2));
-                        if lhs > rhs {
-                            // how many units of D is the excess worth?
+                        let holds = |da: &BigUint| big(s1) * (if *da > big(2) { da - big(2) } else { BigUint::zero() }) <= big(s0) * (&d1 + big(2));
+                        if !holds(&d0) {
+                            let lhs = big(s1) * (if d0 > big(2) { &d0 - big(2) } else { BigUint::zero() });
+                            let rhs = big(s0) * (&d1 + big(2));
                             let excess_units = (&lhs - &rhs) / big(s0.max(1)) + big(1);
                             let msg = format!(
-                                "[C02] {}: stableswap deposit minted {minted_total} LP: supply {s0}->{s1} grew faster than exact D {d0}->{d1} (excess worth {excess_units} units of D; reserves {:?} -> {:?})",
-                                step.describe(), p0.reserves, p1.reserves
+                                "[C02] {}: stableswap deposit minted {minted_total} LP: supply {s0}->{s1} grew faster than exact D {d0}->{d1} (excess worth {excess_units} units of D; reserves {:?} -> {:?}, decimals {:?})",
+                                step.describe(), p0.reserves, p1.reserves, p0.decimals
                             );
-                            // a single-asset deposit swaps internally: the known swap rounding
-                            // finding (<= 2 ask units over-paid) shows here as value of those units
-                            let unit_span = pow10((p0.max_dec() - p0.min_dec()) as u32);
-                            if *single && kf_open("c03-ss-no-pool-favouring-rounding") && excess_units <= big(2) * &unit_span + big(4) {
-                                st.known("c03-ss-no-pool-favouring-rounding", || msg.clone());
-                            } else if !ss_known(p0, p1, &excess_units, st, "c02-ss-mint", &msg) {
+                            // a single-asset deposit swaps internally first: if the deposit phase alone
+                            // (post-swap state -> final state) respects the bound, the loss is the swap's
+                            let mut attributed = false;
+                            if *single {
+                                if let Ok((execs, _)) = swap_execs(step) {
+                                    if let Some(x) = execs.first() {
+                                        let d_mid = x.after.d_scaled(0);
+                                        if holds(&d_mid) {
+                                            match classify_swap_value(x, &step.describe()) {
+                                                Ok(Some((k, m2))) => {
+                                                    st.known(k, || format!("{msg} — caused by its internal swap: {m2}"));
+                                                    attributed = true;
+                                                }
+                                                Ok(None) => {}
+                                                Err(m2) => return Err(format!("{msg} — its internal swap: {m2}")),
+                                            }
+                                        }
+                                    }
+                                }
+                            }
+                            if !attributed && !ss_known(p0, p1, &excess_units, &d1, st, &msg) {
                                 return Err(msg);
                             }
                         }
@@ -420,37 +439,36 @@ pub fn mon_c02(_sim: &Sim, step: &Step, st: &mut Stats) -> Result<(), String> {
     Ok(())
 }
 
-/// Known stableswap numeric findings shared by C02/C03/C19 monitors: returns true when the
-/// deviation falls inside an *open* known-finding signature (and records the hit).
-pub fn ss_known(p0: &PoolView, p1: &PoolView, excess_units: &BigUint, st: &mut Stats, _site: &str, msg: &str) -> bool {
+/// Known stableswap numeric findings (signatures shared with the C19 oracle): true when the
+/// deviation falls inside an *open* signature, and the hit is recorded.
+pub fn ss_known(p0: &PoolView, p1: &PoolView, excess_units: &BigUint, reference: &BigUint, st: &mut Stats, msg: &str) -> bool {
     let amp = match p0.kind {
         Kind::Ss { amp } => amp,
         _ => return false,
     };
     let skew = p0.skew().max(p1.skew());
-    // c19-dust: 18-digit fixed point loses the invariant for dust pools
-    if kf_open("c19-dust") && in_dust_region(p0) || in_dust_region(p1) && kf_open("c19-dust") {
-        st.known("c19-dust", || msg.to_string());
-        return true;
+    let size = size_micro_tokens(p0).min(size_micro_tokens(p1));
+    match crate::props::c19::ss_known_key(amp, skew, &size, excess_units, reference) {
+        Some(k) => {
+            st.known(k, || msg.to_string());
+            true
+        }
+        None => false,
     }
-    if kf_open("c19-int-d-plus-3") && amp <= 10 && skew >= 100 && *excess_units <= big(6) {
-        st.known("c19-int-d-plus-3", || msg.to_string());
-        return true;
-    }
-    false
 }
 
-/// closed-form region on the inputs: a pool worth less than 0.1 whole token in total
-pub fn in_dust_region(p: &PoolView) -> bool {
+/// total normalised reserves in 10^-6 whole tokens
+pub fn size_micro_tokens(p: &PoolView) -> BigUint {
     let s: BigUint = p.normalised().iter().sum();
-    // S < 10^(maxdec - 1)
-    s < pow10((p.max_dec() as u32).saturating_sub(1)).max(big(1))
+    s * pow10(6) / pow10(p.max_dec() as u32)
 }
 
 // ------------------------------------------------------------------------------------------------
 // C03
 
-pub fn check_swap_value(x: &SwapExec, st: &mut Stats, ctx: &str) -> Result<(), String> {
+/// Value check of one executed swap. Ok(None): the exact invariant did not decrease.
+/// Ok(Some((key, msg))): it decreased inside an open known-finding signature. Err: violation.
+pub fn classify_swap_value(x: &SwapExec, ctx: &str) -> Result<Option<(&'static str, String)>, String> {
     match x.before.kind {
         Kind::Cp => {
             if x.after.product() < x.before.product() {
@@ -459,39 +477,61 @@ pub fn check_swap_value(x: &SwapExec, st: &mut Stats, ctx: &str) -> Result<(), S
                     x.path, x.before.id, x.before.reserves, x.after.reserves
                 ));
             }
-            st.bump("c03: cp swaps");
+            Ok(None)
         }
         Kind::Ss { amp } => {
             if !x.before.all_reserves_positive() {
-                return Ok(());
+                return Ok(None);
             }
             let d0 = x.before.d_scaled(9);
             let d1 = x.after.d_scaled(9);
-            st.bump("c03: ss swaps");
-            if d1 < d0 {
-                // how far below the exact minimal ask reserve did the swap leave the pool?
-                let xs1 = x.after.normalised();
-                let others: Vec<BigUint> = xs1.iter().enumerate().filter(|(i, _)| *i != x.ai).map(|(_, v)| v.clone()).collect();
-                let yc = exact::y_ceil(&others, amp, &d0, &pow10(9));
-                let scale = pow10((x.before.max_dec() - x.before.decimals[x.ai]) as u32);
-                let have = &xs1[x.ai];
-                let deficit_units = if &yc > have { (&yc - have + &scale - big(1)) / &scale } else { BigUint::zero() };
-                let msg = format!(
-                    "[C03] {ctx}: {} swap on stableswap {} (amp {amp}) lowered the exact invariant: D·1e9 {d0} -> {d1}; ask reserve is {deficit_units} unit(s) below the exact minimum; reserves {:?} -> {:?} decimals {:?}",
-                    x.path, x.before.id, x.before.reserves, x.after.reserves, x.before.decimals
+            if d1 >= d0 {
+                return Ok(None);
+            }
+            // how far below the exact minimal ask reserve did the swap leave the pool?
+            let xs1 = x.after.normalised();
+            let others: Vec<BigUint> = xs1.iter().enumerate().filter(|(i, _)| *i != x.ai).map(|(_, v)| v.clone()).collect();
+            let yc = exact::y_ceil(&others, amp, &d0, &pow10(9));
+            let scale = pow10((x.before.max_dec() - x.before.decimals[x.ai]) as u32);
+            let have = &xs1[x.ai];
+            let deficit_units = if &yc > have { (&yc - have + &scale - big(1)) / &scale } else { BigUint::zero() };
+            let msg = format!(
+                "[C03] {ctx}: {} swap on stableswap {} (amp {amp}) lowered the exact invariant: D·1e9 {d0} -> {d1}; ask reserve is {deficit_units} unit(s) below the exact minimum; reserves {:?} -> {:?} decimals {:?}",
+                x.path, x.before.id, x.before.reserves, x.after.reserves, x.before.decimals
+            );
+            if kf_open("c03-ss-no-pool-favouring-rounding") && deficit_units <= big(3) {
+                return Ok(Some(("c03-ss-no-pool-favouring-rounding", msg)));
+            }
+            let skew = x.before.skew().max(x.after.skew());
+            if std::env::var("DEXCHECK_SURVEY").is_ok() {
+                // development aid: report the deficit by class instead of judging it
+                let sz = size_micro_tokens(&x.before).min(size_micro_tokens(&x.after));
+                let cls = format!(
+                    "SURVEY deficit={} n={} amp{} skew{} {}",
+                    deficit_units.to_string().chars().take(6).collect::<String>(),
+                    x.before.n(),
+                    if amp <= 3 { "<=3" } else if amp <= 10 { "<=10" } else if amp <= 100 { "<=100" } else { ">100" },
+                    if skew < 3 { "<3" } else if skew < 30 { "<30" } else { ">=30" },
+                    if sz < big(100_000) { "dust" } else { "nondust" }
                 );
-                let skew = x.before.skew().max(x.after.skew());
-                if kf_open("c19-dust") && (in_dust_region(&x.before) || in_dust_region(&x.after)) {
-                    st.known("c19-dust", || msg.clone());
-                } else if kf_open("c03-ss-no-pool-favouring-rounding") && deficit_units <= big(2) {
-                    st.known("c03-ss-no-pool-favouring-rounding", || msg.clone());
-                } else if kf_open("c19-y-newton-stop") && amp <= 10 && skew >= 10 && deficit_units <= big(8) {
-                    st.known("c19-y-newton-stop", || msg.clone());
-                } else {
-                    return Err(msg);
-                }
+                return Ok(Some((Box::leak(cls.into_boxed_str()), msg)));
+            }
+            let size = size_micro_tokens(&x.before).min(size_micro_tokens(&x.after));
+            match crate::props::c19::ss_known_key(amp, skew, &size, &deficit_units, &BigUint::zero()) {
+                Some(k) => Ok(Some((k, msg))),
+                None => Err(msg),
             }
         }
+    }
+}
+
+pub fn check_swap_value(x: &SwapExec, st: &mut Stats, ctx: &str) -> Result<(), String> {
+    match x.before.kind {
+        Kind::Cp => st.bump("c03: cp swaps"),
+        Kind::Ss { .. } => st.bump("c03: ss swaps"),
+    }
+    if let Some((k, msg)) = classify_swap_value(x, ctx)? {
+        st.known(k, || msg);
     }
     if x.ret > 0 {
         st.mark();
@@ -779,6 +819,9 @@ pub fn mon_c12(_sim: &Sim, step: &Step, st: &mut Stats) -> Result<(), String> {
             (Err(e), Ok(_)) => {
                 return Err(format!("[C12] {d}: Simulation refused ({e}) a swap that then executed"));
             }
+            (Ok(_), Err(_)) if step.pre.snap.bal(&step.sender_label, &offer.denom) < offer.amount.u128() => {
+                st.bump("c12: sender cannot pay the offer");
+            }
             (Ok(q), Err(e)) => {
                 if q.return_amount.is_zero() {
                     // a swap that would deliver nothing may be refused: nothing is produced either way
@@ -830,6 +873,9 @@ pub fn mon_c12(_sim: &Sim, step: &Step, st: &mut Stats) -> Result<(), String> {
                     }
                 }
                 (Err(e), Ok(_)) => return Err(format!("[C12] {d}: SimulateSwapOperations refused ({e}) a route that then executed")),
+                (Ok(_), Err(_)) if step.pre.snap.bal(&step.sender_label, &offer.denom) < offer.amount.u128() => {
+                    st.bump("c12: sender cannot pay the offer");
+                }
                 (Ok(q), Err(e)) => {
                     if q.return_amount.is_zero() {
                         st.bump("c12: quoted zero output, route refused");
